@@ -22,7 +22,7 @@ Delays(n) ==
   ELSE IF cfg.pol = "rand" THEN {d \in 0..(2 * cfg.cap) : 2 * d >= Exp(k) - 2 /\ 2 * d <= 3 * Exp(k) + 2}    \* factor 1/2
   ELSE {3 + k}                                                                                     \* custom function
 Reconnectable(o) == o = "e1" \/ (o = "e2" /\ cfg.pred = "all")
-Active == {c \in Callers : st[c] \in {"calling", "sleeping"}}
+Active == {c \in Callers : st[c] \in {"calling", "sleeping", "created"}}
 InitWith(cf) ==
   /\ cfg = cf /\ now = 0 /\ base \in {0, 1} /\ st = [c \in Callers |-> "idle"] /\ attempt = [c \in Callers |-> 0]
   /\ until = [c \in Callers |-> 0] /\ lastGid = [c \in Callers |-> 0] /\ gout = [c \in Callers |-> "none"]
@@ -41,6 +41,15 @@ StartCall(c) ==
 Create(c) ==
   /\ st[c] = "idle" /\ StartCall(c)
   /\ ev' = [e |-> "create", c |-> c, t |-> now, res |-> "created", ns |-> 1, si |-> ngate + 1]
+  /\ UNCHANGED <<cfg, now, base, attempt, until, lastGid, conn>>
+\* the property is silent on whether the first call starts in Service::call or at the first poll
+CreateDeferred(c) ==
+  /\ st[c] = "idle" /\ st' = [st EXCEPT ![c] = "created"]
+  /\ ev' = [e |-> "create", c |-> c, t |-> now, res |-> "created", ns |-> 0]
+  /\ UNCHANGED <<cfg, now, base, attempt, until, lastGid, conn, gout, gid, ngate>>
+PollStart(c) ==
+  /\ st[c] = "created" /\ StartCall(c)
+  /\ ev' = [e |-> "poll", c |-> c, t |-> now, res |-> "pending", ns |-> 1, si |-> ngate + 1]
   /\ UNCHANGED <<cfg, now, base, attempt, until, lastGid, conn>>
 Complete(c, o) ==
   /\ st[c] = "calling" /\ gout[c] = "pending" /\ gout' = [gout EXCEPT ![c] = o]
@@ -76,17 +85,17 @@ PollStutter(c) ==
   /\ ev' = [e |-> "poll", c |-> c, t |-> now, res |-> "pending", ns |-> 0, nd |-> 0]
   /\ UNCHANGED <<cfg, now, base, st, attempt, until, lastGid, gout, gid, ngate, conn>>
 Drop(c) ==
-  /\ st[c] \in {"calling", "sleeping"} /\ st' = [st EXCEPT ![c] = "done"] /\ conn' = "any"
+  /\ st[c] \in {"calling", "sleeping", "created"} /\ st' = [st EXCEPT ![c] = "done"] /\ conn' = "any"
   /\ ev' = [e |-> "drop", c |-> c, t |-> now, ns |-> 0]
   /\ UNCHANGED <<cfg, now, base, attempt, until, lastGid, gout, gid, ngate>>
-Quiescent == \A c \in Callers : ~(st[c] = "calling" /\ gout[c] \notin {"none", "pending"}) /\ ~(st[c] = "sleeping" /\ now >= until[c])
+Quiescent == \A c \in Callers : ~(st[c] = "calling" /\ gout[c] \notin {"none", "pending"}) /\ ~(st[c] = "sleeping" /\ now >= until[c]) /\ st[c] # "created"
 Advance(d) ==
   /\ d > 0 /\ Quiescent /\ \A c \in Callers : st[c] = "sleeping" => now + d <= until[c]
   /\ now' = now + d /\ ev' = [e |-> "advance", d |-> d, t |-> now + d]
   /\ UNCHANGED <<cfg, base, st, attempt, until, lastGid, gout, gid, ngate, conn>>
 \* the observed connection state must agree with conn' whenever conn' is definite
 ConnOK(seen) == conn' = "any" \/ (conn' = "connected" /\ seen = "connected") \/ (conn' = "notconnected" /\ seen # "connected")
-PollAny(c) == PollOutcome(c) \/ PollWake(c) \/ PollStutter(c)
+PollAny(c) == PollOutcome(c) \/ PollWake(c) \/ PollStutter(c) \/ PollStart(c)
 Next ==
   \/ \E c \in Callers : Create(c) \/ PollOutcome(c) \/ PollWake(c)
   \/ \E c \in Callers, o \in Outs : Complete(c, o)
